@@ -176,6 +176,11 @@ MAPPER_CONFIGS = [
     # allocated one / two frames later (ascending allocation places child tables right behind their parents)
     ("offset:0x3ffffffff000:asc:A", "2,2;3,1",     "3,3;4,1"),
     ("offset:0x3fffffffe000:asc:C", "2,2;3,0",     "3,2;4,0"),
+    # alphabet W (wide): 21 sibling tables under one parent at each level; the search is shallow, the wide histories
+    # (n siblings created, emptied and cleaned up in ONE call, n = 1..=21) run after it
+    ("offset:0x0:asc:W",            "1,0",         "2,0"),
+    ("mapped:0x3fffd000:lifo:W",    "1,0",         "2,0"),
+    ("rec126:0x0:asc:W",            "1,0",         "2,0"),
 ]
 
 # the same engine built without overflow checks / debug assertions (profile rel) for one configuration per mapper family:
@@ -201,7 +206,7 @@ _MAPPER_RULE = ("explicit-state breadth-first search over call histories on the 
                 "over simulated physical memory: state = concrete content of all page-table frames + allocator pool (+ deviations used); ~250 actions "
                 "per state (map_to_with_table_flags/map_to/identity_map x 3 sizes x frames x leaf flags (incl. one value with every flag bit but HUGE_PAGE) x 4 parent-flag values (two of them incomparable) x 5 allocator failure schedules, unmap, "
                 "update_flags, set_flags_p4/p3/p2_entry, clean_up, clean_up_addr_range x 12 ranges); bounds are unions of (depth, deviation) pairs, a deviation "
-                "being one non-default argument; 28 configurations (implementation x physical base x allocator policy x page alphabet A nesting / B edges / C related indices) in the overflow-checking profile plus 5 of them rebuilt without overflow checks / debug assertions. "
+                "being one non-default argument; 31 configurations (implementation x physical base x allocator policy x page alphabet A nesting / B edges / C related indices / W 21 siblings per parent) in the overflow-checking profile plus 5 of them rebuilt without overflow checks / debug assertions. "
                 "After every transition: outcome class vs the abstract model R1 (Appendix A of DESIGN.md), full hardware-style traversal R2 of raw memory == R1, "
                 "parent-entry flags, allocation/deallocation logs, access monitor; in every new state: translate/translate_addr/translate_page on the probe addresses == R1 == single-address hardware walk.")
 
